@@ -157,6 +157,7 @@ def generate(req):
         m = max(4, n // 4)
         c.executemany("insert or ignore into t_colpk values(?,?,?,?)",
                       [(g.text_value(), g.text_value() if r.random() > 0.1 else None, g.text_value() if r.random() > 0.1 else None, g.any_value()) for i in range(m)])
+        c.execute("create index ix_colpk_v on t_colpk(v, k)")
         c.execute("create table t_uqpk(a TEXT UNIQUE PRIMARY KEY DESC, b INTEGER, UNIQUE(b, a), UNIQUE(a COLLATE binary))")
         c.executemany("insert or ignore into t_uqpk values(?,?)", [(g.text_value(), r.randint(0, 9)) for i in range(m)])
 
